@@ -51,6 +51,7 @@ def gen_case(r, info=None):
             ev.append(("up", parent, r.below(256), 0x8C, [r.below(256), local] + BOARDS[i][1]))
             for _ in range(r.range(0, 2)): ev.append(("up", a, r.below(256), r.choice([0xA0, 0xA1]), [r.below(256)]))
             ev.append(("up", parent, r.below(256), 0x8D, [r.below(256), local] + BOARDS[j][1]))
+            where.pop(i); where[j] = a          # keep the generator's picture current (the re-login block below relies on it)
             for _ in range(r.range(1, 4)):
                 k = r.below(3)
                 if k == 0: ev.append(("up", a, r.below(256), 0xA0, [r.below(256)]))
@@ -72,7 +73,7 @@ def gen_case(r, info=None):
                     elif k == 2: ev.append(("up", b, r.below(256), 0xA2, [8 * r.below(8), 16] + [r.below(256), r.below(256)]))
                     else: ev.append(("up", b, r.below(256), 0xAC, [r.below(256) for _ in range(5)]))
                 others = [j for j in range(4) if j not in where]
-                if others and r.chance(1, 2):
+                if others and r.chance(1, 2) and a not in where.values():
                     j = r.choice(others); ev.append(("up", (), r.below(256), 0x8D, [r.below(256), a[0]] + BOARDS[j][1])); where[j] = a
                 for _ in range(r.range(1, 3)): ev.append(("up", a, r.below(256), r.choice([0xA0, 0xA1]), [r.below(256)]))
     # lift every stall at the end
